@@ -223,15 +223,28 @@ func (s *Spec) Apply(op Op) (must, may []Emit) {
 // at op j (discards exactly the halves created at or before j).
 func (s *Spec) Cuts() []int {
 	set := map[int]bool{0: true}
+	oldest := -1
 	for _, ss := range s.sess {
 		if ss.status == sUnbound {
 			set[ss.created+1] = true
+			if oldest < 0 || ss.created < oldest {
+				oldest = ss.created
+			}
 		}
 	}
 	for _, l := range s.logins {
 		if l.status == lParked {
 			set[l.created+1] = true
+			if oldest < 0 || l.created < oldest {
+				oldest = l.created
+			}
 		}
+	}
+	// the latest cut-off that still spares every waiting half (it is older than everything that has ended or been
+	// correlated since, younger than nothing that waits): for the model the same as no cut-off at all, for an
+	// implementation only if no waiting half carries an age that is not its own
+	if oldest > 0 {
+		set[oldest] = true
 	}
 	var out []int
 	for c := range set {
